@@ -158,6 +158,13 @@ RULES = [
 ]
 
 
+# entries whose reason rests on what another function's *result* guarantees: (regex on key, regex on the MIR name of
+# that supplier).  The supplier's decision structure (engine_fp.body_fingerprint) is recorded with the entry.
+SUPPLIERS = [
+    (r"^substrate_fixed::from_str::((bin|oct|hex|dec)_str_(int|frac)_to_bin|frac_is_half) \| overflow:sub$", r"^parse_bounds$"),
+]
+
+
 def main():
     sweep = {"keys": {}}
     for tier in ("thorough", "quick"):
@@ -193,9 +200,23 @@ def main():
         fps = set()
         for pos in v["pos"]:
             fps.update(mir.fingerprints(pos, kind, msg, via))
-        entries.append({"key": key, "status": "infeasible", "max_distinct_locations": npos,
-                        "applies": hit[1], "reason": hit[2], "fingerprints": sorted(fps),
-                        "caller_fingerprints": mir.caller_fingerprints(parts[0])})
+        if not fps and via:
+            # keys are normalised (`x += y` is keyed as `add`); the MIR still has the assigning callee
+            for alt in ([via[-1] + "_assign"], via + [via[-1] + "_assign"]):
+                for pos in v["pos"]:
+                    fps.update(mir.fingerprints(pos, kind, msg, via[:-1] + alt if len(alt) == 1 else alt))
+                if fps:
+                    break
+        ent = {"key": key, "status": "infeasible", "max_distinct_locations": npos,
+               "applies": hit[1], "reason": hit[2], "fingerprints": sorted(fps),
+               "caller_fingerprints": mir.caller_fingerprints(parts[0])}
+        for krx, srx in SUPPLIERS:
+            if re.search(krx, key):
+                n, fp = mir.body_fingerprint(srx)
+                if n != 1:
+                    print("supplier %s matches %d functions" % (srx, n))
+                ent.setdefault("suppliers", {})[srx] = fp
+        entries.append(ent)
     for i, r in enumerate(RULES):
         if i not in used:
             print("rule matched nothing:", r[0])
